@@ -117,3 +117,12 @@ claim("C18",
       "thin pairs (1e-4 rad .. pi - 1e-4 rad via the bigint mirror), and checks bi-invariance and triangle inequalities on seeded "
       "float triples.",
       "TLA+ Metrics + TLC (exhaustive over 2O^3) + exact replay", "DESIGN.md section 5, C18")
+claim("C17",
+      "FrameGraph.tla has the frames as nodes and the 19 public conversion functions (degree and radian variants) as edges; TLC "
+      "enumerates every identity path of length <= 4 (124 paths; angular frames left in the unit they were entered with) and "
+      "checks, in integers, Isometry and OriginToZero of the exact rational ECEF->ENU rotation at Pythagorean origins; the harness "
+      "walks every identity path from start points covering both poles, +-89.9999, the equatorial plane, +-180, heights -10..1000 "
+      "km, offsets to 1e6 m, 7 origins (incl. polar) and 6 DCA angles and requires the start coordinates back; exact ENU "
+      "coordinates, isometry, origin->0 and the orthogonal-transpose relation of the local-level matrices are compared with the "
+      "specification's rationals.",
+      "TLA+ FrameGraph + TLC path enumeration + replay of identity paths, exact rational rotation", "DESIGN.md section 5, C17")
